@@ -1776,6 +1776,18 @@ hdf_read_vars(XDR *xdrs, NC *handle, int32 vg)
 
                     if (is_rec_var) {
                         /*
+                         * Hlength (above) fails when the data element does not exist yet:
+                         * no records.  When the element is there and its length could not
+                         * be obtained (a read error), the number of records is unknown:
+                         * give up instead of deriving it from FAIL.
+                         */
+                        if (data_count == FAIL) {
+                            if (Hexist(handle->hdf_file, DATA_TAG, (uint16)vp->data_ref) == SUCCEED)
+                                HGOTO_FAIL(FAIL);
+                            data_count = 0;
+                        }
+
+                        /*
                          * Call NC_var_shape() so we can figure out how many
                          *  records have been written.  This is horribly
                          *  inefficient, but the separation-of-powers gets
